@@ -89,8 +89,10 @@ def cases(tier, seed):
         for sub in itertools.combinations(range(len(G9)), k):
             for cls in ("Linear", "Cubic"):
                 for rescale in (False, True):
-                    for aniso in (1.0, 100.0):
+                    for aniso in (1.0, 100.0, 3.0e4, 1.0e-6):     # the last two: regions 1e4 ... 1e6 times wider than tall, or taller than wide (seed C03-10)
                         if tier == "quick" and k == 5 and (sum(sub) + int(aniso)) % 3:
+                            continue
+                        if tier == "quick" and aniso in (3.0e4, 1.0e-6) and sum(sub) % 4:
                             continue
                         yield dict(kind="scipy", sub=list(sub), cls=cls, rescale=rescale, aniso=aniso)
 
